@@ -159,9 +159,15 @@ def presented_key(link):
     return None
 
 
-def settle(link):
-    """Positioning only: let both sides read what is in flight."""
-    link.wait_quiescent(timeout=2.0, settle=3)
+def settle(link, tc, ts):
+    """Positioning only: let both sides read what is in flight (a side that has ended reads nothing)."""
+    end = time.time() + 2.0
+    ok = 0
+    while time.time() < end and ok < 3:
+        a = link.ab.idle() or not ts.is_active()
+        b = link.ba.idle() or tc is None or not tc.is_active()
+        ok = ok + 1 if (a and b and not link.ab.pending and not link.ba.pending) else 0
+        time.sleep(0.002)
 
 
 def check_stream(ctx, case, link, transport, forbidden, raised, policy_mark, label):
@@ -279,7 +285,7 @@ def run_lifecycle(ctx, case, classes):
             if stage == "all":
                 link.ba.set_hold(False)
                 cev.wait(T)
-                settle(link)
+                settle(link, tc, ts)
             else:
                 for _ in range(stage):
                     if not link.ba.wait_pending(1, timeout=T):
@@ -292,7 +298,7 @@ def run_lifecycle(ctx, case, classes):
                     ok = ok + 1 if link.ba.idle() else 0
                     time.sleep(0.002)
             th.start()
-            th.join(0.3)
+            th.join(0.05)
             link.ba.set_hold(False)
             th.join(T)
         if not res.get("done"):
@@ -308,8 +314,8 @@ def run_lifecycle(ctx, case, classes):
         if case["then_auth"] and stage != "closed" and tc.is_active() and not tc.is_authenticated():
             e2 = do_auth(tc, case, case["method"] if case["method"] != "none" else "password")
             classes.add("second-auth:%s" % ("ok" if e2 is None else type(e2).__name__))
-        settle(link)
-        ok, summ = check_stream(ctx, case, link, tc, None, None, None, "lifecycle:%s:%s" % (case["method"], stage))
+        settle(link, tc, ts)
+        ok, summ = check_stream(ctx, case, link, tc, None, None, None, "lifecycle:%s" % case["method"])
         if ok and summ["encrypted_50"]:
             classes.add("control:encrypted-userauth-seen")
         return early or stage == "closed"
@@ -356,7 +362,7 @@ def run_connect(ctx, case, classes):
             tc.connect(hostkey=pool_key(hostkey) if hostkey else None, **kw)
         except Exception as e:
             raised = e
-        settle(link)
+        settle(link, tc, ts)
         presented = presented_key(link)
         forbidden = None
         if hostkey is not None and presented != A.pub_blob(hostkey):
@@ -469,7 +475,7 @@ def run_sshclient(ctx, case, classes):
             except Exception as e:
                 raised = e
         tc = client.get_transport()
-        settle(link)
+        settle(link, tc, ts)
         # ---- model
         want = lookup_name(HOST, case["port"])
         matching = [e for e in case["entries"] if want in entry_names(e["names"], case["port"])]
